@@ -172,6 +172,12 @@ func (reg *Reg) BlobMount(ctx context.Context, rSrc ref.Ref, rTgt ref.Ref, d des
 func (reg *Reg) BlobPut(ctx context.Context, r ref.Ref, d descriptor.Descriptor, rdr io.Reader) (descriptor.Descriptor, error) {
 	var putURL *url.URL
 	var err error
+	// a digest that cannot be verified is an error, only the zero value means the digest is unknown
+	if d.Digest != "" {
+		if err = d.Digest.Validate(); err != nil {
+			return d, fmt.Errorf("failed to put blob, invalid digest %s, ref %s: %w", d.Digest.String(), r.CommonName(), err)
+		}
+	}
 	validDesc := (d.Size > 0 && d.Digest.Validate() == nil) || (d.Size == 0 && d.Digest == zeroDig)
 	// dedup warnings
 	if w := warning.FromContext(ctx); w == nil {
